@@ -144,3 +144,32 @@ Proof.
     destruct (sync_of x); [discriminate | exact IHl].
   - apply (IH (m :: h) E c Hin).
 Qed.
+
+(* -------- successive instances of the daemon over one segment -------- *)
+Lemma lives_app pre post :
+  lives (pre ++ post) = match lives pre, lives post with Some a, Some b => Some (a ++ b) | _, _ => None end.
+Proof.
+  induction pre as [|[d ms] pre IH]; cbn [app lives].
+  - destruct (lives post); reflexivity.
+  - rewrite IH. destruct (urun (u_init d) ms) as [[u cs]|]; [|reflexivity].
+    destruct (lives pre) as [a|]; [|reflexivity]. destruct (lives post) as [b|]; [|reflexivity].
+    rewrite app_assoc. reflexivity.
+Qed.
+
+(* the records of one instance are those of its own history, whatever ran before or runs after *)
+Theorem lives_life pre d ms post cs : lives (pre ++ (d, ms) :: post) = Some cs ->
+  exists a c, lives pre = Some a /\ lives post = Some c /\ cs = a ++ spec_run d [] ms ++ c /\
+              length (spec_run d [] ms) = length ms.
+Proof.
+  rewrite lives_app. cbn [lives]. destruct (lives pre) as [a|]; [|discriminate].
+  destruct (urun (u_init d) ms) as [[u b]|] eqn:R; [|discriminate].
+  destruct (lives post) as [c|]; [|discriminate]. intros H; inversion H; subst; clear H.
+  rewrite <- state_after_nil in R. destruct (urun_spec d ms [] u b R) as (_ & -> & L).
+  exists a, c. repeat split; auto.
+Qed.
+
+Lemma spec_run_drift drift : forall ms h c, In c (spec_run drift h ms) -> c_drift c = drift.
+Proof.
+  induction ms as [|m ms IH]; intros h c Hin; cbn [spec_run] in Hin; [contradiction|].
+  destruct Hin as [<- | Hin]; [apply spec_drift | apply (IH (m :: h) c Hin)].
+Qed.
